@@ -81,15 +81,10 @@ Definition upper (x : str) : str := map upper_char x.
 
 (* ([KMGTP]?B)\Z  -> decimal exponent of the unit in bytes *)
 Definition scan_unit (x : str) : option Z :=
-  match x with
-  | ["B"%char] => Some 0%Z
-  | ["K"%char; "B"%char] => Some 3%Z
-  | ["M"%char; "B"%char] => Some 6%Z
-  | ["G"%char; "B"%char] => Some 9%Z
-  | ["T"%char; "B"%char] => Some 12%Z
-  | ["P"%char; "B"%char] => Some 15%Z
-  | _ => None
-  end.
+  if str_eqb x (s "B") then Some 0%Z else if str_eqb x (s "KB") then Some 3%Z
+  else if str_eqb x (s "MB") then Some 6%Z else if str_eqb x (s "GB") then Some 9%Z
+  else if str_eqb x (s "TB") then Some 12%Z else if str_eqb x (s "PB") then Some 15%Z
+  else None.
 
 (* re.match(r"^(\d+(?:\.\d+)?)([KMGTP]?B)\Z", memory.upper()) -> (integer digits, fraction digits, unit exponent).
    \d+ is greedy and what follows a digit run must be "." or a unit letter, so there is no backtracking alternative. *)
@@ -100,13 +95,15 @@ Definition parse_memory (m : str) : option (str * str * Z) :=
   | [] => None
   | _ =>
       match r1 with
-      | "."%char :: r2 =>
-          let (d2, r3) := span is_digit r2 in
-          match d2 with
-          | [] => None            (* the optional group does not match and "." is not a unit *)
-          | _ => option_map (fun k => (d1, d2, k)) (scan_unit r3)
-          end
-      | _ => option_map (fun k => (d1, [], k)) (scan_unit r1)
+      | c :: r2 =>
+          if Ascii.eqb c "."%char then
+            let (d2, r3) := span is_digit r2 in
+            match d2 with
+            | [] => None            (* the optional group does not match and "." is not a unit *)
+            | _ => option_map (fun k => (d1, d2, k)) (scan_unit r3)
+            end
+          else option_map (fun k => (d1, [], k)) (scan_unit r1)
+      | [] => None                (* no unit *)
       end
   end.
 
@@ -121,7 +118,8 @@ Definition is_valid_memory (m : str) : bool := match mem_bytes m with Some _ => 
 (* ---------------------------------------------------------------- wall time strings *)
 Definition two_digits (x : str) : option str :=
   match x with a :: b :: r => if is_digit a && is_digit b then Some r else None | _ => None end.
-Definition colon (x : str) : option str := match x with ":"%char :: r => Some r | _ => None end.
+Definition colon (x : str) : option str :=
+  match x with c :: r => if Ascii.eqb c ":"%char then Some r else None | [] => None end.
 Definition g_dd_colon (x : str) : option str :=                        (* \d{2}: *)
   match two_digits x with Some r => colon r | None => None end.
 Definition g_dplus_colon (x : str) : option str :=                     (* \d+: *)
